@@ -176,6 +176,7 @@ type World struct {
 	spinWG         sync.WaitGroup
 	spinPause      int32
 	loadCancelled  bool                        // restart … ctx=cancelled
+	noLoad         bool                        // restart … noload
 	legacyOf       map[int]<-chan events.Event // legacy channels handed out just before a store was closed
 	sigOverride    *int                        // forge: the `sig` flag to declare instead of the measured one (a malleated signature verifies, but nobody signed it)
 	lastStore      iface.Store                 // address family: the store of the last successful createdb
